@@ -365,6 +365,8 @@ def f_sched(rng, sid):
             ln = ln[:-1] + b"\r\n"
         total += ln
     sc.meta["input"] = total
+    if rng.random() < 0.3:
+        sc.op("refval %d" % rng.choice([-1, -11, 2, 255]))     # a driver may refuse with any value but 1
     sc.op("hq " + ",".join(rng.choice(["3", "0", "-1", "1", "2", "3", "0/e:x6162", "7"]) for _ in range(8)) + ",3,3,3,3,3,3,3,3")
     sc.op("vq " + ",".join(rng.choice(["0", "0", "0", "0", "1"]) for _ in range(12)))
     # feed at random split points (one scenario in three: byte by byte, so every boundary is a split)
@@ -411,6 +413,8 @@ def f_evt(rng, sid):
     sc.group()
     _evcmds(rng, sc)
     n = len(sc.cmds)
+    if rng.random() < 0.25:
+        sc.op("refval %d" % rng.choice([-1, -11, 2, 255]))
     p_w = rng.choice([1.0, 1.0, 0.7, 0.4])
     for _ in range(rng.randint(60, 500)):
         r = rng.random()
